@@ -325,6 +325,22 @@ func init() {
 			}
 			w.stats.Inc("probe.P2-leaf-encodings")
 		}
+		// lock times between two seconds: "after T" means after T, wherever the median falls
+		{
+			for _, d := range []time.Duration{-time.Nanosecond, 0, time.Nanosecond, 250 * time.Millisecond, 500 * time.Millisecond, 999999999 * time.Nanosecond, -500 * time.Millisecond} {
+				for _, med := range []time.Time{c.median, c.median.Truncate(time.Second), c.median.Truncate(time.Second).Add(500 * time.Millisecond)} {
+					lock := med.Add(d)
+					for _, q := range []types.SpendPolicy{types.PolicyAfter(lock), types.PolicyThreshold(1, []types.SpendPolicy{types.PolicyOpaque(types.PolicyAbove(1)), types.PolicyAfter(lock)})} {
+						verr := q.Verify(c.height, med, types.Hash256{}, nil, nil)
+						if want := ref.PolicySatisfied(q, c.height, med, types.Hash256{}, nil, nil); (verr == nil) != want {
+							w.violate("C14", "verify-disagrees", fmt.Sprintf("policy %v built for lock time %v (%d ns past the second), median timestamp %v: Verify returned %v, the lock has passed: %v", q, lock.Unix(), lock.Nanosecond(), med.UnixNano(), verr, want))
+							return
+						}
+					}
+				}
+			}
+			w.stats.Inc("probe.P2-subsecond-locks")
+		}
 		// legacy conditions far larger than any threshold may be: the limit on sub-policies does not count keys
 		if t.Chance(1, 30) {
 			k := pick(t, 1024, 1025, 1100)
